@@ -1,4 +1,4 @@
     ensures
-        r is Ok ==> agree_ok(*layout, link_files@),   // [C07]
+        r is Ok ==> agree_ok(*layout, link_files@),   // [C07,C08]
         // exact: failure only when some step with threshold >= 2 really lacks links or has disagreeing links (order independent)
         r is Err ==> exists|i: int| 0 <= i < layout.steps@.len() && (#[trigger] layout.steps@[i]).threshold >= 2 && !step_agrees(layout.steps@[i], link_files@),   // [C07,C13]
